@@ -180,6 +180,33 @@ def run(ctx):
         for rep_ in range(3):
             ops, flat = gen_scenario(sch, rng, True, dup_file=d)
             cases.append({"id": "d%d_%d" % (i, rep_), "script": ops, "flat": flat, "expect": None, "no_model": True, "meta": {"kind": "file-with-repeated-table-entries"}})
+    # targeted: the READING state of a CdnsBlockRead (its three cursors) across every copy route: a block with several address events,
+    # query/responses and malformed messages read from a file, copied / moved / assigned; then the source gets further events of kinds it
+    # already counts and new ones, or is cleared, or destroyed; the generic records of the copy are then read (and the other way round)
+    for i in range(16 if tier == "quick" else 400):
+        h = histgen.gen_history(sch, rng, nops=rng.choice([8, 15]), rotations=False, maxi=10000, nsets=1, masks=(histgen.ALL_QR_BITS, histgen.ALL_SIG_BITS, 3, 3))
+        h["ops"] = [o for o in h["ops"] if o[0] in ("qr", "aec", "mm")] + [("aec", None, histgen.gen_gaec(rng)) for _ in range(3)] + [("wb",)]
+        aecs = [o[2] for o in h["ops"] if o[0] == "aec"]
+        pre = histgen.to_script(sch, h, read_back=False)
+        route, after = ["copy", "move", "assign", "massign"][i % 4], ["more", "clear", "destroy", "more-on-copy"][(i // 4) % 4]
+        if route in ("move", "massign") and after in ("more", "clear"): after = "destroy"      # a moved-from source is only destroyed
+        rd = "fromfile0" if i % 2 else "fromfile"
+        bpt = schema.show(sch["BlockParameters"], h["pre"][3][0])
+        ops = pre + ["B %s a 0 0" % rd] + (["B rnew b " + bpt] if route in ("assign", "massign") else []) + ["B %s b a" % route]
+        flat = pre + ["B %s b 0 0" % rd]
+        more = ["B aec %s _ %s" % ("%s", schema.show(histgen.GAEC, a)) for a in (rng.sample(aecs, 2) + [histgen.gen_gaec(rng)])]
+        if after == "more": ops += [m % "a" for m in more]
+        elif after == "clear": ops += ["B clear a"]
+        elif after == "destroy": ops += ["B destroy a"]
+        else:
+            # the copy is extended and read; the source must still read as the block in the file
+            for l in (ops, flat): l += [m % "b" for m in more]
+            if route in ("copy", "assign"):
+                ops += ["M 9", "B gen0 a", "M end"]; flat += ["B %s a 0 0" % rd, "M 9", "B gen0 a", "M end"]
+        for k, cmd in enumerate(["B gen b", "B dump b", "B gen0 b"]):     # gen0: through the object's own cursors (once)
+            for l in (ops, flat): l += ["M %d" % k, cmd, "M end"]
+        # (the model has no cursors: gen0 on an object extended after it was read / copied is compared with the rebuilt block only)
+        cases.append({"id": "rc%d" % i, "script": ops, "flat": flat, "expect": None, "no_model": rd == "fromfile0" or after == "more-on-copy", "meta": {"kind": "reader-cursors/%s/%s" % (route, after)}})
     scripts = [(c["id"], c["script"]) for c in cases if not c.get("no_model")]
     impl, model, crashes = common.run_both(scripts, ctx["impl"]["drv"], ctx["mdl"], batch=10)
     nm = [(c["id"], c["script"]) for c in cases if c.get("no_model")]
@@ -211,7 +238,8 @@ def run(ctx):
     common.summarize_cov(rep, cases,
         "histories over up to four blocks (CdnsBlock and CdnsBlockRead, built through add_* or obtained from the reader by the documented "
         "'block = reader.read_block(eof)' idiom): copy-construct, move-construct, copy-/move-assign, then destroy / clear / keep filling the source, "
-        "add existing and new values to the copy (de-duplicating adds on single tables and whole records), serialise it, read its generic records. "
+        "add existing and new values to the copy (de-duplicating adds on single tables and whole records), serialise it, read its generic records; targeted scenarios for the reading cursors of a CdnsBlockRead (every copy route x source extended / "
+        "cleared / destroyed / copy extended, then the generic records of the copy and of the source are read). "
         "Run under ASan. Oracle on the implementation alone: every observable result must equal the result of the same command on a block rebuilt "
         "from scratch with the same content; model comparison on top. distinct = distinct scripts", diffs, fails)
     return {"diffs": diffs, "fails": fails, "to_script": lambda c: common.case_script(c)}
